@@ -187,6 +187,52 @@ pub proof fn lemma_same_shape_right_refl(a: MV, b: MV)
 """, mod="data", name="shape_lemmas"))
 
 
+A(Raw(r"""
+/// the skip set / the bytes after the first i fields (prefix form of ser_fields_from)
+pub open spec fn fpre_skip(f: Seq<(Seq<char>, MV)>, i: int) -> Set<Seq<char>>
+    decreases i
+{
+    if i <= 0 { Set::empty() } else {
+        let s = fpre_skip(f, i - 1);
+        if s.contains(f[i - 1].0) { s } else { match opt_of(f[i - 1].1) { OV::Skip(k) => s.insert(k), _ => s } }
+    }
+}
+pub open spec fn fpre_bytes(f: Seq<(Seq<char>, MV)>, i: int) -> Seq<u8>
+    decreases i
+{
+    if i <= 0 { Seq::empty() } else if fpre_skip(f, i - 1).contains(f[i - 1].0) { fpre_bytes(f, i - 1) } else { fpre_bytes(f, i - 1) + ser(f[i - 1].1) }
+}
+pub proof fn lemma_fields_split(f: Seq<(Seq<char>, MV)>, i: int)
+    requires 0 <= i <= f.len()
+    ensures ser_fields_from(f, 0, Set::empty()) == fpre_bytes(f, i) + ser_fields_from(f, i, fpre_skip(f, i))
+    decreases i
+{
+    if i > 0 {
+        lemma_fields_split(f, i - 1);
+        let s = fpre_skip(f, i - 1);
+        if s.contains(f[i - 1].0) {
+            assert(ser_fields_from(f, i - 1, s) == ser_fields_from(f, i, s));
+        } else {
+            let s2 = match opt_of(f[i - 1].1) { OV::Skip(k) => s.insert(k), _ => s };
+            assert(ser_fields_from(f, i - 1, s) == ser(f[i - 1].1) + ser_fields_from(f, i, s2));
+            assert(fpre_bytes(f, i - 1) + (ser(f[i - 1].1) + ser_fields_from(f, i, s2)) =~= (fpre_bytes(f, i - 1) + ser(f[i - 1].1)) + ser_fields_from(f, i, s2));
+        }
+    } else {
+        assert(Seq::<u8>::empty() + ser_fields_from(f, 0, Set::empty()) =~= ser_fields_from(f, 0, Set::empty()));
+    }
+}
+pub proof fn lemma_fpre_local(f: Seq<(Seq<char>, MV)>, g: Seq<(Seq<char>, MV)>, i: int)
+    requires 0 <= i <= f.len(), i <= g.len(), forall|k: int| 0 <= k < i ==> f[k] == g[k]
+    ensures fpre_skip(f, i) == fpre_skip(g, i), fpre_bytes(f, i) == fpre_bytes(g, i)
+    decreases i
+{
+    if i > 0 { lemma_fpre_local(f, g, i - 1); }
+}
+pub open spec fn no_dyn_before(f: Seq<(Seq<char>, MV)>, i: int) -> bool {
+    forall|k: int| 0 <= k < i ==> !((#[trigger] f[k]).1 is Dyn)
+}
+""", mod="data", name="fields_lemmas"))
+
 def impl_specs(ty_regex, label, mv, wf, rwf):
     return Raw("    open spec fn mv(&self) -> MV { %s }\n    open spec fn wf(&self) -> bool { %s }\n    open spec fn rwf(&self) -> bool { %s }\n" % (mv, wf, rwf),
                mod="data", name="views_" + label, file=DATA, impl=ty_regex)
@@ -320,7 +366,70 @@ def MS(ty_regex, name, **kw):
     if name == "read":
         kw["sig_sub"] = R_SIG
     A(Stub(DATA, name, impl=ty_regex, mod="data", dyn=False, why="not reached", **kw))
-MS(COMP, "read")
+M(COMP, "read", nloops=1,
+  body_sub=[(r"for \(name, value\) in self\.into_iter\(\) \{",
+             "let mut __i: usize = 0; while __i < self.len() { let (name, value) = self.get_index_mut(__i).unwrap(); __i += 1;"),
+            (r"value\.read\(&mut Cursor::new\(local\)\)", "value.read(dyn_reader(&mut Cursor::new(local)))")],
+  pre="let ghost f0 = self.fields(); let ghost e0 = self.entries(); let ghost r0 = reader.rest(); proof { lemma_suffix_refl(r0); broadcast use lemma_suffix_trans_b; }",
+  loops={1: """invariant __i <= self.entries().len(), self.entries().len() == e0.len(), f0 == old(self).fields(), e0 == old(self).entries(), r0 == old(reader).rest(),
+            is_suffix(reader.rest(), r0),
+            forall|k: int| 0 <= k < e0.len() ==> (#[trigger] self.entries()[k]).0 == e0[k].0,
+            forall|k: int| 0 <= k < e0.len() ==> same_shape(f0[k].1, (#[trigger] self.entries()[k]).1.mv()),
+            forall|k: int| 0 <= k < e0.len() ==> (#[trigger] self.entries()[k]).1.wf() && self.entries()[k].1.rwf() && same_shape(self.entries()[k].1.mv(), self.entries()[k].1.mv()),
+            forall|k: int| __i <= k < e0.len() ==> (#[trigger] self.entries()[k]).1.mv() == f0[k].1,
+            filtering_key.s() == fpre_skip(self.fields(), __i as int),
+            arrays_empty(MV::Comp(f0)) ==> fpre_bytes(self.fields(), __i as int).len() + reader.rest().len() <= r0.len(),
+            no_dyn_before(f0, __i as int) ==> filtering_key.s() =~= Set::<Seq<char>>::empty() && dynamic_size.m() =~= Map::<Seq<char>, usize>::empty(),
+            no_dyn_before(f0, __i as int) ==> (r0.len() - reader.rest().len()) + min_fields_from(f0, __i as int) >= min_fields_from(f0, 0),
+            !no_dyn_before(f0, __i as int) ==> r0.len() - reader.rest().len() >= min_fields_from(f0, 0),
+            (is_static(MV::Comp(f0)) || is_plain(MV::Comp(f0))) ==> no_dyn_before(f0, __i as int) && r0 == fpre_bytes(self.fields(), __i as int) + reader.rest(),
+            is_static(MV::Comp(f0)) ==> fpre_bytes(self.fields(), __i as int).len() == fpre_bytes(f0, __i as int).len() && fpre_skip(f0, __i as int) =~= Set::<Seq<char>>::empty(),
+        decreases self.entries().len() - __i"""},
+  hints=[(r"let mut __i: usize = 0;", 1, """proof { assert(f0.len() == e0.len());
+                assert forall|k: int| 0 <= k < e0.len() implies same_shape(f0[k].1, (#[trigger] self.entries()[k]).1.mv()) by { assert(e0[k].1.rwf()); } }""", "atend"),
+         (r"let \(name, value\) = self\.get_index_mut", 1, """let ghost e1 = self.entries(); let ghost f1 = self.fields(); let ghost j = __i as int; let ghost rb = reader.rest(); let ghost fk1 = filtering_key.s();
+                proof { assert(f1[j] == (e1[j].0@, e1[j].1.mv())); assert(e1[j].1.wf() && e1[j].1.rwf() && e1[j].1.mv() == f0[j].1); assert(e1[j].0 == e0[j].0); }""", "at"),
+         (r"__i \+= 1;", 1, "proof { broadcast use lemma_suffix_trans_b; assert(name@ == f1[j].0); assert(value.mv() == f1[j].1); }", "atend"),
+         (r"continue;", 1, """proof { assert(self.entries() =~= e1); assert(self.fields() =~= f1); assert(fpre_skip(f1, j + 1) == fpre_skip(f1, j)); assert(fpre_bytes(f1, j + 1) == fpre_bytes(f1, j));
+                assert(!no_dyn_before(f0, j)); assert(!no_dyn_before(f0, j + 1)); }""", "before"),
+         (r"match value\.options\(\) \{", 1, """let ghost vm = value.mv();
+                proof {
+                    assert(same_shape(f1[j].1, vm) && value.wf() && value.rwf());
+                    lemma_same_shape_right_refl(f1[j].1, vm);
+                    assert(is_suffix(reader.rest(), rb));
+                    if no_dyn_before(f0, j) { assert(rb.len() >= reader.rest().len() + min_wire_len(f0[j].1)); }
+                    if arrays_empty(MV::Comp(f0)) { assert(arrays_empty(f0[j].1)); assert(ser(vm).len() + reader.rest().len() <= rb.len()); }
+                    if is_static(MV::Comp(f0)) {
+                        assert(is_static(f0[j].1));
+                        assert(rb =~= rb.take(ser(f0[j].1).len() as int) + rb.skip(ser(f0[j].1).len() as int));
+                        assert(rb == ser(vm) + reader.rest());
+                    } else if is_plain(MV::Comp(f0)) {
+                        assert(is_plain(f0[j].1));
+                        assert(rb == ser(vm) + reader.rest());
+                    }
+                }""", "before"),
+         (r"MessageOption::None => \(\)\s*\n\s*\}", 1, """proof {
+                    let f2 = self.fields();
+                    assert(self.entries() =~= e1.update(j, (e1[j].0, self.entries()[j].1)));
+                    assert(f2 =~= f1.update(j, (f1[j].0, vm)));
+                    lemma_fpre_local(f1, f2, j);
+                    assert(fpre_skip(f2, j + 1) == (match opt_of(vm) { OV::Skip(k) => fpre_skip(f2, j).insert(k), _ => fpre_skip(f2, j) }));
+                    assert(fpre_bytes(f2, j + 1) == fpre_bytes(f2, j) + ser(vm));
+                    if no_dyn_before(f0, j) {
+                        if f0[j].1 is Dyn { assert(!no_dyn_before(f0, j + 1)); } else { assert(!(vm is Dyn)); assert(no_dyn_before(f0, j + 1)); }
+                    } else { assert(!no_dyn_before(f0, j + 1)); }
+                    if is_static(MV::Comp(f0)) || is_plain(MV::Comp(f0)) {
+                        assert(!(f0[j].1 is Dyn));
+                        assert(r0 =~= fpre_bytes(f2, j + 1) + reader.rest());
+                    }
+                    if is_static(MV::Comp(f0)) { assert(fpre_bytes(f0, j + 1) == fpre_bytes(f0, j) + ser(f0[j].1)); }
+                }"""),
+         (r"Ok\(\(\)\)", 1, """proof { let f2 = self.fields(); let n = f2.len() as int;
+                 lemma_fields_split(f2, n); lemma_fields_split(f0, n);
+                 assert(fpre_bytes(f2, n) + Seq::<u8>::empty() =~= fpre_bytes(f2, n));
+                 assert(fpre_bytes(f0, n) + Seq::<u8>::empty() =~= fpre_bytes(f0, n));
+                 assert(same_shape(MV::Comp(f0), MV::Comp(f2)));
+                 if is_static(MV::Comp(f0)) { let m = ser(MV::Comp(f0)).len() as int; assert(r0.take(m) =~= ser(MV::Comp(f2))); assert(r0.skip(m) =~= reader.rest()); } }""", "before")])
 M(COMP, "options")
 M(COMP, "visit")
 
@@ -444,7 +553,26 @@ A(impl_specs(ARR, "Array",
              "self.inner.wf()",
              "factory_ok(self.factory) && forall|i: int| 0 <= i < self.inner@.len() ==> same_shape(arr_proto(self.factory), (#[trigger] self.inner@[i]).mv())"))
 M(ARR, "write")
-MS(ARR, "read")
+M(ARR, "read", nloops=1,
+  body_sub=[(r"\(self\.factory\)\(\)", "self.factory.call()"), (r"self\.inner\.push\(Box::new\(e\)\)", "self.inner.push(box_dyn(Box::new(e)))")],
+  pre="let ghost r0 = reader.rest(); let ghost p = arr_proto(self.factory); let ghost n0 = self.inner@.len(); proof { lemma_suffix_refl(r0); broadcast use lemma_suffix_trans_b; }",
+  loops={1: """invariant self.factory == old(self).factory, p == arr_proto(self.factory), factory_ok(self.factory), r0 == old(reader).rest(), n0 == old(self).inner@.len(),
+            self.inner.wf(), self.inner@.len() >= n0,
+            forall|i: int| 0 <= i < self.inner@.len() ==> same_shape(p, (#[trigger] self.inner@[i]).mv()),
+            is_suffix(reader.rest(), r0),
+            arrays_empty(old(self).mv()) ==> ser_seq_pre(trame_view(self.inner@), self.inner@.len() as int).len() + reader.rest().len() <= r0.len(),
+        decreases reader.rest().len()"""},
+  hints=[(r"let mut element = Some\(self\.factory\.call\(\)\);", 1,
+          "let ghost rb = reader.rest(); let ghost tvb = trame_view(self.inner@); proof { broadcast use lemma_suffix_trans_b; lemma_arr_proto(self.factory, element->Some_0); assert(element.mv() == MV::Opt(Some(Box::new(p)))); assert(arrays_empty(old(self).mv()) ==> arrays_empty(element.mv())); }"),
+         (r"self\.inner\.push\(box_dyn\(Box::new\(e\)\)\)", 1, """; proof {
+                let tv2 = trame_view(self.inner@); let n = tvb.len() as int;
+                assert(tv2[n] == e.mv());
+                assert(tv2 =~= tvb.push(e.mv()));
+                lemma_seq_pre_local(tvb, tv2, n);
+                assert(ser_seq_pre(tv2, n + 1) == ser_seq_pre(tv2, n) + ser(tv2[n]));
+           }""", "atend"),
+         (r"Ok\(\(\)\)", 1, """proof { let tv2 = trame_view(self.inner@); lemma_seq_split(tv2, tv2.len() as int);
+                 assert(ser_seq_pre(tv2, tv2.len() as int) + Seq::<u8>::empty() =~= ser_seq_pre(tv2, tv2.len() as int)); }""", "before")])
 M(ARR, "length")
 M(ARR, "options")
 M(ARR, "visit")
